@@ -147,8 +147,10 @@ pub fn check_code(code: &[u8]) -> Result<Option<usize>, Verdict> {
 #[derive(Clone, Debug)]
 enum Chunk {
     Seq(usize),
-    Templates(usize),
+    Templates(usize, usize),
 }
+
+const TEMPLATE_SLICES: usize = 8;
 
 fn plan(_tier: Tier) -> Vec<Chunk> {
     let mut v = Vec::new();
@@ -156,7 +158,9 @@ fn plan(_tier: Tier) -> Vec<Chunk> {
         v.push(Chunk::Seq(c));
     }
     for t in 0..TEMPLATES {
-        v.push(Chunk::Templates(t));
+        for s in 0..TEMPLATE_SLICES {
+            v.push(Chunk::Templates(t, s));
+        }
     }
     v
 }
@@ -212,10 +216,13 @@ impl Check for C12 {
                     true
                 });
             }
-            Chunk::Templates(t) => {
+            Chunk::Templates(t, slice) => {
                 let b = boundary_set(tier.thorough());
                 let b2: Vec<U> = if tier.thorough() { b.iter().copied().step_by(3).collect() } else { b.clone() };
-                for c1 in &b {
+                for (i1, c1) in b.iter().enumerate() {
+                    if i1 % TEMPLATE_SLICES != slice {
+                        continue;
+                    }
                     for c2 in &b2 {
                         let code = template(t, *c1, *c2);
                         run(ctx, "templates", &code, &|| format!("template {t}: {} with c1=0x{} c2=0x{}", crate::templates::template_name(t), c1.hex_min(), c2.hex_min()));
